@@ -33,6 +33,7 @@ CONSTANTS
   MaxFail,    \* how many functions the environment may fail
   EnvMode,    \* "quiescent": environment acts only when no internal step is enabled
               \* "async":     environment steps interleave with every internal step
+  SignalInside, \* a completing user future may send the interrupt signal itself (a signal in the middle of a poll)
   \* ---- deliberate deviations ("as found" / mutants); the values of the code are given in the comment
   ReleaseAt,      \* 0     release a successor when its count reaches exactly 0
   DoneAtStart,    \* FALSE send done when the user future starts instead of when it returns
@@ -55,20 +56,24 @@ VARIABLES
   processed,      \* fn_ids_processed
   is,             \* InterruptibleStream state
   intRun,         \* function handed out as Interrupted(Some f) and still running (0 = none)
+  pulled,         \* for_each bodies: items the ready stream has returned whose item future has not had its
+                  \* first poll yet (pushed into FuturesUnordered): sequence of [f |-> function or 0, int |-> BOOLEAN]
   running,        \* user futures started and not returned
-  open,           \* running futures the environment has made ready: f :> ok
+  open,           \* running futures the environment has made ready: f :> [ok, sig]
+                  \*   sig = the function sends the interrupt signal itself as it returns (mid-poll signal)
   started, ended, failed, errors,   \* observation: hand-outs in order, returned, failed, result channel
   sigChan, sigSent, afterSig,
+  pullsAfterSig,  \* functions handed out by the ready stream after the signal was sent
   sEnded, sDone, foldErr, returned, outcome, panicked,
   hist            \* environment steps so far (scenario output only; hidden by VIEW in exhaustive runs)
 
-vars == <<n, E, C, cnt, readyQ, readyTx, doneQ, doneTx, qRem, qDone, sRem, processed, is, intRun,
-          running, open, started, ended, failed, errors, sigChan, sigSent, afterSig,
+vars == <<n, E, C, cnt, readyQ, readyTx, doneQ, doneTx, qRem, qDone, sRem, processed, is, intRun, pulled,
+          running, open, started, ended, failed, errors, sigChan, sigSent, afterSig, pullsAfterSig,
           sEnded, sDone, foldErr, returned, outcome, panicked, hist>>
 
 (* everything but the history *)
-View == <<n, E, cnt, readyQ, readyTx, doneQ, doneTx, qRem, qDone, sRem, processed, is, intRun,
-          running, open, started, ended, failed, errors, sigChan, sigSent, afterSig,
+View == <<n, E, cnt, readyQ, readyTx, doneQ, doneTx, qRem, qDone, sRem, processed, is, intRun, pulled,
+          running, open, started, ended, failed, errors, sigChan, sigSent, afterSig, pullsAfterSig,
           sEnded, sDone, foldErr, returned, outcome, panicked>>
 
 IsFoldApi == Api \in {"fold", "try_fold"}
@@ -106,10 +111,10 @@ Init ==
   /\ doneQ = <<>>
   /\ doneTx = (n > 0 \/ ~EmptyRelease)
   /\ qRem = n /\ qDone = FALSE /\ sRem = n
-  /\ processed = <<>> /\ is = IS0 /\ intRun = 0
+  /\ processed = <<>> /\ is = IS0 /\ intRun = 0 /\ pulled = <<>>
   /\ running = {} /\ open = <<>>
   /\ started = <<>> /\ ended = {} /\ failed = {} /\ errors = <<>>
-  /\ sigChan = (PreSig /\ HasChannel(Strategy)) /\ sigSent = FALSE /\ afterSig = 0
+  /\ sigChan = (PreSig /\ HasChannel(Strategy)) /\ sigSent = FALSE /\ afterSig = 0 /\ pullsAfterSig = 0
   /\ sEnded = FALSE /\ sDone = FALSE /\ foldErr = 0 /\ returned = FALSE
   /\ outcome = [state |-> "", processed |-> <<>>, notProcessed |-> <<>>, kind |-> ""]
   /\ panicked = FALSE
@@ -136,22 +141,23 @@ QRecv ==
         THEN \E p \in Perms(rel) :
                readyQ' = TrySendAll(readyQ, IF OneRelease /\ Len(p) > 1 THEN <<p[1]>> ELSE p)
         ELSE readyQ' = readyQ
-  /\ UNCHANGED <<n, E, C, doneTx, qDone, sRem, processed, is, intRun, running, open, started, ended, failed,
-                 errors, sigChan, sigSent, afterSig, sEnded, sDone, foldErr, returned, outcome, panicked, hist>>
+  /\ UNCHANGED <<n, E, C, doneTx, qDone, sRem, processed, is, intRun, pulled, running, open, started, ended, failed,
+                 errors, sigChan, sigSent, afterSig, pullsAfterSig, sEnded, sDone, foldErr, returned, outcome, panicked, hist>>
 
 (* the done channel is closed and empty: the queuer finishes and drops its ready sender *)
 QEnd ==
   /\ ~qDone /\ doneQ = <<>> /\ ~doneTx
   /\ qDone' = TRUE /\ readyTx' = FALSE
-  /\ UNCHANGED <<n, E, C, cnt, readyQ, doneQ, doneTx, qRem, sRem, processed, is, intRun, running, open, started,
-                 ended, failed, errors, sigChan, sigSent, afterSig, sEnded, sDone, foldErr, returned, outcome, panicked, hist>>
+  /\ UNCHANGED <<n, E, C, cnt, readyQ, doneQ, doneTx, qRem, sRem, processed, is, intRun, pulled, running, open, started,
+                 ended, failed, errors, sigChan, sigSent, afterSig, pullsAfterSig, sEnded, sDone, foldErr, returned, outcome, panicked, hist>>
 
 ---------------------------------------------------------------------------
 (* scheduler                                                                *)
 
+(* futures' for_each_concurrent counts every pushed item future, polled or not *)
 SlotFree ==
   IF IsFoldApi THEN running = {}
-  ELSE IgnoreLimit \/ Limit <= 0 \/ Cardinality(running) < Limit
+  ELSE IgnoreLimit \/ Limit <= 0 \/ Cardinality(running) + Len(pulled) < Limit
 
 Inner == IF readyQ # <<>> THEN "item" ELSE IF readyTx THEN "pending" ELSE "end"
 
@@ -161,9 +167,26 @@ AfterFn(f, tx) ==
   /\ sRem' = sRem - 1
   /\ doneTx' = (tx /\ sRem - 1 > 0 /\ ~(f = intRun /\ DropOnInterrupt))
 
-(* One poll_next of the wrapped ready stream, and -- because nothing can      *)
-(* suspend in between -- the invocation of the user closure for the item it   *)
-(* returned (fold: the fold closure; for_each: first poll of the item future). *)
+(* the user closure is invoked for an item: fold -- in the same step as the pull; for_each -- at the first   *)
+(* poll of the item future                                                                                  *)
+Begin(f, int) ==
+  IF f # 0
+  THEN /\ started' = Append(started, f)
+       /\ running' = running \cup {f}
+       /\ afterSig' = IF sigSent THEN afterSig + 1 ELSE afterSig
+       /\ intRun' = IF int THEN f ELSE intRun
+       /\ doneQ' = IF DoneAtStart /\ doneTx THEN Append(doneQ, f) ELSE doneQ
+       /\ doneTx' = doneTx
+  ELSE /\ UNCHANGED <<started, running, afterSig, intRun, doneQ>>
+       \* Interrupted(None) (or an excluded item): fn_done_tx_drop_if_interrupted
+       /\ doneTx' = (doneTx /\ ~(int /\ DropOnInterrupt))
+
+(* One poll_next of the wrapped ready stream.                                                            *)
+(*   fold / try_fold: the fold closure runs in the same loop iteration, so the user closure is invoked   *)
+(*     here (nothing else can run in between).                                                            *)
+(*   for_each_concurrent: the item future is only PUSHED here; FuturesUnordered gives it its first poll   *)
+(*     later in the same poll of the call -- possibly after other in-flight futures were polled (it       *)
+(*     returns after each completion and the combinator pulls again first).  Hence `pulled` and SStart.   *)
 SPull ==
   /\ ~sEnded /\ ~sDone /\ SlotFree
   /\ LET r == PollIS(Strategy, K, is, Inner, sigChan)
@@ -171,32 +194,41 @@ SPull ==
          gotItem == r.polled /\ Inner = "item"            \* the inner stream handed over f
          handed  == r.out = "item" \/ (r.out = "int_item" /\ Include)
          interrupted == r.out \in {"int_item", "int_none"}
+         isItem == r.out \in {"item", "int_item", "int_none"}
      IN
      /\ (r.out = "pending" => r.is # is \/ r.recv)          \* a Pending poll that changes nothing is no step
      /\ is' = r.is
      /\ sigChan' = (sigChan /\ ~r.recv)
      /\ readyQ' = IF gotItem THEN Tail(readyQ) ELSE readyQ
      /\ processed' = IF gotItem /\ (Include \/ r.out = "item") THEN Append(processed, f) ELSE processed
+     /\ pullsAfterSig' = IF handed /\ sigSent THEN pullsAfterSig + 1 ELSE pullsAfterSig
      /\ sEnded' = (r.out = "end")
-     /\ IF handed
-        THEN /\ started' = Append(started, f)
-             /\ running' = running \cup {f}
-             /\ afterSig' = IF sigSent THEN afterSig + 1 ELSE afterSig
-             /\ intRun' = IF r.out = "int_item" THEN f ELSE intRun
-             /\ doneQ' = IF DoneAtStart /\ doneTx THEN Append(doneQ, f) ELSE doneQ
-             /\ doneTx' = doneTx
-        ELSE /\ UNCHANGED <<started, running, afterSig, intRun, doneQ>>
-             \* Interrupted(None) (or an excluded item): fn_done_tx_drop_if_interrupted
-             /\ doneTx' = (doneTx /\ ~(interrupted /\ DropOnInterrupt))
+     /\ IF ~isItem
+        THEN UNCHANGED <<started, running, afterSig, intRun, doneQ, doneTx, pulled>>
+        ELSE IF IsFoldApi
+             THEN Begin(IF handed THEN f ELSE 0, interrupted) /\ UNCHANGED pulled
+             ELSE /\ pulled' = Append(pulled, [f |-> IF handed THEN f ELSE 0, int |-> interrupted])
+                  /\ UNCHANGED <<started, running, afterSig, intRun, doneQ, doneTx>>
   /\ UNCHANGED <<n, E, C, cnt, readyTx, qRem, qDone, sRem, open, ended, failed, errors, sigSent,
                  sDone, foldErr, returned, outcome, panicked, hist>>
 
-(* the user future of f returns (ok or failing) inside a poll; the rest of the item future runs without suspending *)
-SFinishCore(f, ok) ==
+(* first poll of the oldest pushed item future: the user closure is invoked *)
+SStart ==
+  /\ pulled # <<>> /\ ~sDone
+  /\ Begin(Head(pulled).f, Head(pulled).int)
+  /\ pulled' = Tail(pulled)
+  /\ UNCHANGED <<n, E, C, cnt, readyQ, readyTx, qRem, qDone, sRem, processed, is, open, ended, failed, errors, sigChan,
+                 sigSent, pullsAfterSig, sEnded, sDone, foldErr, returned, outcome, panicked, hist>>
+
+(* the user future of f returns (ok or failing) inside a poll; the rest of the item future runs without      *)
+(* suspending.  sig: the function sends the interrupt signal itself just before it returns.                  *)
+SFinishCore(f, ok, sig) ==
   /\ f \in running
   /\ running' = running \ {f}
   /\ ended' = ended \cup {f}
   /\ intRun' = IF f = intRun THEN 0 ELSE intRun
+  /\ sigSent' = (sigSent \/ sig)
+  /\ sigChan' = (sigChan \/ (sig /\ ~sigSent))
   /\ IF ok
      THEN /\ AfterFn(f, doneTx)
           /\ UNCHANGED <<failed, errors, sDone, foldErr>>
@@ -210,20 +242,21 @@ SFinishCore(f, ok) ==
                   /\ errors' = Append(errors, f)
                   /\ AfterFn(f, doneTx /\ ~DropOnError)
                   /\ UNCHANGED <<sDone, foldErr>>
-  /\ UNCHANGED <<n, E, C, cnt, readyQ, readyTx, qRem, qDone, processed, is, started, sigChan, sigSent, afterSig,
+  /\ UNCHANGED <<n, E, C, cnt, readyQ, readyTx, qRem, qDone, processed, is, pulled, started, afterSig, pullsAfterSig,
                  sEnded, returned, outcome, panicked, hist>>
 
 SFinish(f) ==
   /\ f \in DOMAIN open
-  /\ SFinishCore(f, open[f])
+  /\ SFinishCore(f, open[f].ok, open[f].sig)
   /\ open' = [g \in (DOMAIN open) \ {f} |-> open[g]]
 
 (* ready stream exhausted and nothing in flight: fold / for_each_concurrent complete *)
 SEnd ==
-  /\ sEnded /\ ~sDone /\ running = {}
+  /\ sEnded /\ ~sDone /\ running = {} /\ pulled = <<>>
   /\ sDone' = TRUE
-  /\ UNCHANGED <<n, E, C, cnt, readyQ, readyTx, doneQ, doneTx, qRem, qDone, sRem, processed, is, intRun, running, open,
-                 started, ended, failed, errors, sigChan, sigSent, afterSig, sEnded, foldErr, returned, outcome, panicked, hist>>
+  /\ UNCHANGED <<n, E, C, cnt, readyQ, readyTx, doneQ, doneTx, qRem, qDone, sRem, processed, is, intRun, pulled, running, open,
+                 started, ended, failed, errors, sigChan, sigSent, afterSig, pullsAfterSig, sEnded, foldErr, returned, outcome,
+                 panicked, hist>>
 
 (* join!(queuer, scheduler) completes; StreamOutcome::new; result channel drained; control mapping *)
 Return ==
@@ -238,32 +271,37 @@ Return ==
                       ELSE IF Api = "try_fold" THEN "ok" ELSE "outcome"
      IN outcome' = [state |-> st, processed |-> processed,
                     notProcessed |-> Ascending(n, (1..n) \ Range(processed)), kind |-> kind]
-  /\ UNCHANGED <<n, E, C, cnt, readyQ, readyTx, doneQ, doneTx, qRem, qDone, sRem, processed, is, intRun, running, open,
-                 started, ended, failed, errors, sigChan, sigSent, afterSig, sEnded, sDone, foldErr, panicked, hist>>
+  /\ UNCHANGED <<n, E, C, cnt, readyQ, readyTx, doneQ, doneTx, qRem, qDone, sRem, processed, is, intRun, pulled, running, open,
+                 started, ended, failed, errors, sigChan, sigSent, afterSig, pullsAfterSig, sEnded, sDone, foldErr, panicked, hist>>
 
-Internal == QRecv \/ QEnd \/ SPull \/ SEnd \/ Return \/ \E f \in 1..N : SFinish(f)
+Internal == QRecv \/ QEnd \/ SPull \/ SStart \/ SEnd \/ Return \/ \E f \in 1..N : SFinish(f)
 
 ---------------------------------------------------------------------------
 (* environment                                                              *)
 
-FailBudget == Cardinality(failed) + Cardinality({ f \in DOMAIN open : ~open[f] }) < MaxFail
+FailBudget == Cardinality(failed) + Cardinality({ f \in DOMAIN open : ~open[f].ok }) < MaxFail
 
-EnvOpen(f, ok) ==
+(* a user future becomes ready; with sig it will also send the interrupt signal as it returns *)
+EnvOpen(f, ok, sig) ==
   /\ f \in running /\ f \notin DOMAIN open
   /\ ok \/ (IsTryApi /\ FailBudget)
-  /\ open' = [g \in (DOMAIN open) \cup {f} |-> IF g = f THEN ok ELSE open[g]]
-  /\ hist' = Append(hist, [op |-> "open", f |-> f, ok |-> ok])
-  /\ UNCHANGED <<n, E, C, cnt, readyQ, readyTx, doneQ, doneTx, qRem, qDone, sRem, processed, is, intRun, running,
-                 started, ended, failed, errors, sigChan, sigSent, afterSig, sEnded, sDone, foldErr, returned, outcome, panicked>>
+  /\ sig => /\ SignalInside /\ HasChannel(Strategy) /\ ~sigSent /\ ~PreSig
+            /\ \A g \in DOMAIN open : ~open[g].sig
+  /\ open' = [g \in (DOMAIN open) \cup {f} |-> IF g = f THEN [ok |-> ok, sig |-> sig] ELSE open[g]]
+  /\ hist' = Append(hist, [op |-> "open", f |-> f, ok |-> ok, signal |-> sig])
+  /\ UNCHANGED <<n, E, C, cnt, readyQ, readyTx, doneQ, doneTx, qRem, qDone, sRem, processed, is, intRun, pulled, running,
+                 started, ended, failed, errors, sigChan, sigSent, afterSig, pullsAfterSig, sEnded, sDone, foldErr, returned,
+                 outcome, panicked>>
 
 EnvSignal ==
   /\ HasChannel(Strategy) /\ ~sigSent /\ ~PreSig /\ ~returned
+  /\ \A g \in DOMAIN open : ~open[g].sig
   /\ sigSent' = TRUE /\ sigChan' = TRUE
-  /\ hist' = Append(hist, [op |-> "signal", f |-> 0, ok |-> TRUE])
-  /\ UNCHANGED <<n, E, C, cnt, readyQ, readyTx, doneQ, doneTx, qRem, qDone, sRem, processed, is, intRun, running, open,
-                 started, ended, failed, errors, afterSig, sEnded, sDone, foldErr, returned, outcome, panicked>>
+  /\ hist' = Append(hist, [op |-> "signal", f |-> 0, ok |-> TRUE, signal |-> FALSE])
+  /\ UNCHANGED <<n, E, C, cnt, readyQ, readyTx, doneQ, doneTx, qRem, qDone, sRem, processed, is, intRun, pulled, running, open,
+                 started, ended, failed, errors, afterSig, pullsAfterSig, sEnded, sDone, foldErr, returned, outcome, panicked>>
 
-Env == EnvSignal \/ \E f \in 1..N, ok \in BOOLEAN : EnvOpen(f, ok)
+Env == EnvSignal \/ \E f \in 1..N, ok \in BOOLEAN, sig \in BOOLEAN : EnvOpen(f, ok, sig)
 
 Idle == ~ENABLED Internal
 
@@ -276,7 +314,7 @@ Spec == Init /\ [][Next]_vars
 (* liveness: the scheduler and queuer keep running, user futures eventually become ready *)
 Fairness ==
   /\ WF_vars(Internal)
-  /\ \A f \in 1..N : WF_vars(EnvOpen(f, TRUE))
+  /\ \A f \in 1..N : WF_vars(EnvOpen(f, TRUE, FALSE))
 LiveSpec == Spec /\ Fairness
 Termination == <>returned
 
@@ -295,7 +333,7 @@ Inv_C01 == C01_PathExclusion(C, running)
 Inv_C02 == \A i \in DOMAIN started : C02_HandOut(n, C, Order, started[i], ended)
 Inv_C03 == NoDup(started) /\ (returned => C03_AtEnd(Ob))
 Inv_C04 == /\ C04_NoDeadlock(Idle, returned, running \ DOMAIN open)   \* in flight and not yet made ready
-           /\ (returned => C04_ReturnClean(running))
+           /\ (returned => C04_ReturnClean(running) /\ pulled = <<>>)
            /\ ~panicked
 Inv_C06 == (Idle /\ ~returned /\ C06_Applies(Ob)) => C06_Eager(n, E, Order, Range(started), ended)
 Inv_C07 == /\ \A i \in DOMAIN started : C07_HandOut(C, Order, started[i], failed)
@@ -305,14 +343,21 @@ Inv_C07 == /\ \A i \in DOMAIN started : C07_HandOut(C, Order, started[i], failed
                  /\ (outcome.kind \in {"ok", "continue"} => failed = {}))
            /\ (returned /\ Api = "try_fold" =>
                  C07_FoldResult(outcome.kind = "fold_err", foldErr, IF failed = {} THEN <<>> ELSE <<foldErr>>))
-Inv_C08 == /\ C08_AfterSignal(Ob) /\ C08_PreSignal(Ob)
+(* The bound as the design guarantees it: on functions HANDED OUT by the ready stream after the signal. *)
+ObPull == [Ob EXCEPT !.afterSig = pullsAfterSig]
+Inv_C08 == /\ C08_AfterSignal(ObPull) /\ C08_PreSignal(Ob)
            /\ (returned /\ foldErr = 0 => C08_StartedProcessed(started, processed, running))
+(* The bound as the property states it: on functions STARTED after the signal.  It holds for the fold bodies *)
+(* and whenever the signal is sent between polls of the call; it FAILS for the for_each bodies when the      *)
+(* signal is sent in the middle of a poll (SignalInside, or EnvMode = "async"): an item pulled before the    *)
+(* signal gets its first poll after it.  This is the known finding recorded for C08 (DESIGN 14.6).           *)
+Inv_C08_Starts == C08_AfterSignal(Ob)
 Inv_C09 == (returned /\ foldErr = 0) =>
              /\ C09_Processed(outcome.processed, started)
              /\ C09_NotProcessed(n, outcome.notProcessed, started)
              /\ C09_State(n, outcome.state, started)
              /\ (Control => C09_Control(outcome.kind, outcome.state, failed))
-Inv_C10 == C10_HandOut(Ob, running)
+Inv_C10 == C10_HandOut(Ob, running) /\ (~IsFoldApi /\ ~IgnoreLimit /\ Limit >= 1 => Cardinality(running) + Len(pulled) <= Limit)
 
 (* spec -> impl: one line per completed behaviour, replayed on the real code by the harness *)
 ScenarioOut ==
